@@ -338,6 +338,11 @@ func (r *Report) Finish() int {
 		sv, sweepCov = r.runSweep(r.AllowFile)
 		violations += sv
 	}
+	if r.Sweep == "aliveguard" {
+		var sv int
+		sv, sweepCov = r.runAliveCheck(r.AllowFile)
+		violations += sv
+	}
 	if r.Sweep == "lockdiscipline" || r.Sweep == "pairing" {
 		var sv int
 		sv, sweepCov = r.runLockCheck(r.AllowFile)
